@@ -8,6 +8,7 @@ def main(tier, replay=None):
     res = Result("C13", tier, "exploration")
     fams = [dict(scn="local", name="c13-" + f, opts=["mode=c13", "family=" + f] + (["thorough=1"] if tier == "thorough" else []), bounds="0,0,0,0", total=0, deadline=1500, qcap=2000000) for f in ("select", "perm", "instr", "owner", "hdr")]
     fams.append(dict(scn="local", name="c13-control-file-io", opts=["mode=c13", "family=qmailio"], bounds="0,1,0,0", total=1, deadline=900))
+    fams.append(dict(scn="local", name="c13-lock-timer-not-left-armed", opts=["mode=c13", "family=instr"], bounds="0,0,0,1", total=1, deadline=900, qcap=2000000))
     plain_src = run_families(res, "C13", tier, fams)
     res.rule = ("real qmail-local (-n and real mode, real fork/exec of a /bin/sh stand-in, real maildir child, real qmail-queue for forwards) in a "
                 "virtual home.  select: all 256 subsets of 8 .qmail files x 16 extensions (case incl. the boundary letter Z, dots, slashes, trailing dash, 'default'); perm: "
@@ -15,7 +16,8 @@ def main(tier, replay=None):
                 "16 line kinds (comment, blank, programs exiting 0/99/100/111/64/1, mbox, maildir, two forward spellings, +list, program/maildir/mbox lines with trailing "
                 "blanks) x {file ends with a newline, does not} x {-n, real, real with x bit}; owner: -owner / -owner-default x 3 senders; hdr: hostile senders/extensions x loop "
                 "variants x 3 targets.  Each case is compared with a reference interpreter written from dot-qmail(5)/qmail-command(8): selected "
-                "file, ordered actions, forward last and only on success, exit code class, header lines of every delivered copy")
+                "file, ordered actions, forward last and only on success, exit code class, header lines of every delivered copy; the instruction lists again with qmail-local's own alarm "
+                "running out at any call at which it is still pending other than the lock wait itself (it must not be: no such call exists on a correct tree)")
     res.assumptions = ["virtual kernel (appendix A)", "conf-patrn is read from the tree (002)", "the clock advances one second whenever a process exits (maildir names of two deliveries by a re-used pid would otherwise collide, which qmail-local answers with a deferral)"]
     res.require_nonzero("evaluations", "c13_cases", "c13_exit0", "c13_exit100", "c13_exit111")
     lib_conformance(res, rundir("C13lib"), plain_src, ['bytes', 'io', 'ctl'], tier, asan=False)
